@@ -12,7 +12,11 @@ Clause decided: "when the answer cannot be decided it raises rather than guessin
  R2  the ordering operators indeed fail closed: no loki expression class
      defines ``__lt__/__le__/__gt__/__ge__`` that returns a value for
      non-literal operands.
-Not decided: correctness of simplify() on the difference (C08).
+ R3-R5  a definite answer is ``op(simplify(difference), 0)``: the shape rules of the
+     arithmetic rewrites that produce that difference are re-evaluated here
+     (C08 R4 multiset accumulators, C08 R5 sign parity, C08 R6 power folding) --
+     a cancelled term that does not cancel turns "cannot decide" into an answer.
+Not decided: the remaining arithmetic of simplify() on the difference (C08).
 """
 import ast
 
@@ -110,9 +114,16 @@ def run(ctx):
             (ctx.judge('R2', inst) if not bad else
              ctx.violation('R2', inst, f'{c.module.relpath}:{fn.lineno}', f'{inst} answers `{bad[0]}` for arbitrary operands'))
     ctx.floor('R2', 'ordering dunders on expression classes', n, 4)
+    from sa.rules.c08 import arithmetic_shape_rules
+    arithmetic_shape_rules(ctx, 'R3', 'R4', 'R5')
 
 
 MUTANTS = [
+    Mutant('sign-by-count-one', 'loki/expression/symbolic.py', "is_neg = sum(1 for v in components if v == -1) % 2 == 1", "is_neg = sum(1 for v in components if v == -1) == 1",
+           expect=('R4', 'sign-by-count')),
+    Mutant('zero-base-folds', 'loki/expression/symbolic.py', "            if isinstance(base, literal_types) and base_value == 1:\n                return base\n",
+           "            if isinstance(base, literal_types) and base_value == 1:\n                return base\n            if isinstance(base, literal_types) and base_value == 0:\n                return base\n",
+           expect=('R5', 'exponent-discarded')),
     Mutant('repair-guard', FILE, "    return op(expr1, expr2)\n\n\ndef distribute_product",
            "    if op in (_op.eq, _op.ne) and not is_constant(expr1):\n        raise TypeError('cannot decide')\n    return op(expr1, expr2)\n\n\ndef distribute_product",
            expect=None, quick=True),
